@@ -1,4 +1,232 @@
 package main
 
+import (
+	"fmt"
+	"go/ast"
+	"go/token"
+	"path/filepath"
+	"strings"
+)
+
 // extra facts are added here as the model grows (merge orders, lock regions, formatter lists, …).
-func extra(repo, out string, root, helpers *pkgFiles) {}
+func extra(repo, out string, root, helpers *pkgFiles) {
+	irefl, err := parseDir(filepath.Join(repo, "internal/reflect"))
+	if err != nil {
+		fail("parse internal/reflect", err)
+		return
+	}
+	if root != nil {
+		genReflect(out, root, irefl)
+	}
+}
+
+func b2l(b bool) string {
+	if b {
+		return "true"
+	}
+	return "false"
+}
+
+func containsCall(n ast.Node, name string) bool {
+	found := false
+	ast.Inspect(n, func(x ast.Node) bool {
+		if ce, ok := x.(*ast.CallExpr); ok && strings.HasSuffix(exprString(ce.Fun), name) {
+			found = true
+		}
+		return true
+	})
+	return found
+}
+
+// genReflect reads four facts about Stack/internal/reflect that the Stack model is parametrised by.
+func genReflect(out string, root, irefl *pkgFiles) {
+	var sb strings.Builder
+	sb.WriteString("import Vuego.Model.Stack\nnamespace Vuego.Generated\nopen Vuego\n\n")
+	ok := true
+	defer func() {
+		sb.WriteString("end Vuego.Generated\n")
+		writeFile(out, "Reflect.lean", sb.String())
+	}()
+
+	// 1. resolveStruct: does the FieldByName branch test IsExported, and does the tag loop skip unexported fields?
+	checksExported := false
+	if fd := irefl.fn("resolveStruct"); fd != nil {
+		byName, byTag := false, false
+		sawName, sawTag := false, false
+		ast.Inspect(fd.Body, func(n ast.Node) bool {
+			switch x := n.(type) {
+			case *ast.IfStmt:
+				if x.Init != nil && containsCall(x.Init, "FieldByName") {
+					sawName = true
+					byName = containsCall(x.Cond, "IsExported")
+				}
+			case *ast.RangeStmt:
+				sawTag = true
+				// the loop must `continue` on !IsExported before reaching FieldByIndex
+				for _, s := range x.Body.List {
+					if ifs, ok := s.(*ast.IfStmt); ok && containsCall(ifs.Cond, "IsExported") && strings.Contains(normExpr(ifs.Cond), "!f.IsExported()") {
+						if len(ifs.Body.List) == 1 {
+							if br, ok := ifs.Body.List[0].(*ast.BranchStmt); ok && br.Tok == token.CONTINUE {
+								byTag = true
+							}
+						}
+					}
+				}
+			}
+			return true
+		})
+		if !sawName || !sawTag {
+			fail("resolveStruct", fmt.Errorf("shape not recognised (FieldByName if / tag loop)"))
+			ok = false
+		}
+		if byName != byTag {
+			fail("resolveStruct", fmt.Errorf("export check present in only one of the two lookups (byName=%v byTag=%v)", byName, byTag))
+			ok = false
+		}
+		checksExported = byName && byTag
+	} else {
+		fail("resolveStruct", fmt.Errorf("function not found"))
+		ok = false
+	}
+
+	// 2. resolveMap: guard on the key kind before MapIndex
+	checksKeyKind := false
+	if fd := irefl.fn("resolveMap"); fd != nil {
+		for _, s := range fd.Body.List {
+			if ifs, ok := s.(*ast.IfStmt); ok {
+				c := normExpr(ifs.Cond)
+				if strings.Contains(c, "Key().Kind()!=reflect.String") && len(ifs.Body.List) == 1 {
+					if r, ok := ifs.Body.List[0].(*ast.ReturnStmt); ok && len(r.Results) == 2 && exprString(r.Results[0]) == "nil" && exprString(r.Results[1]) == "false" {
+						checksKeyKind = true
+					}
+				}
+			}
+			if containsCall(s, "MapIndex") {
+				break
+			}
+		}
+		if !containsCall(fd.Body, "MapIndex") {
+			fail("resolveMap", fmt.Errorf("MapIndex call not found"))
+			ok = false
+		}
+	} else {
+		fail("resolveMap", fmt.Errorf("function not found"))
+		ok = false
+	}
+
+	// 3. Stack.resolveStep: the map[string]string case
+	strMapMissingAbsent := false
+	if fd := root.method("Stack", "resolveStep"); fd != nil {
+		found := false
+		ast.Inspect(fd.Body, func(n ast.Node) bool {
+			cc, isCC := n.(*ast.CaseClause)
+			if !isCC || len(cc.List) != 1 {
+				return true
+			}
+			if mt, isMap := cc.List[0].(*ast.MapType); isMap && exprString(mt.Key) == "string" && exprString(mt.Value) == "string" {
+				found = true
+				switch {
+				case len(cc.Body) == 1 && isReturnOf(cc.Body[0], "c[p]"):
+					strMapMissingAbsent = false
+				case len(cc.Body) == 2 && isCommaOkReturn(cc.Body[0]) && isReturnOf(cc.Body[1], "nil"):
+					strMapMissingAbsent = true
+				default:
+					fail("resolveStep", fmt.Errorf("map[string]string case body not recognised"))
+					ok = false
+				}
+			}
+			return true
+		})
+		if !found {
+			fail("resolveStep", fmt.Errorf("map[string]string case not found"))
+			ok = false
+		}
+	} else {
+		fail("resolveStep", fmt.Errorf("method not found"))
+		ok = false
+	}
+
+	// 4. Stack.EnvMap: is PopulateStructFields called before or after the scope loop?
+	envStructFirst := false
+	if fd := root.method("Stack", "EnvMap"); fd != nil {
+		loopAt, popAt := -1, -1
+		for i, s := range fd.Body.List {
+			if _, isFor := s.(*ast.ForStmt); isFor && loopAt < 0 {
+				loopAt = i
+			}
+			if containsCall(s, "PopulateStructFields") && popAt < 0 {
+				popAt = i
+			}
+		}
+		if loopAt < 0 || popAt < 0 {
+			fail("EnvMap", fmt.Errorf("scope loop or PopulateStructFields call not found at statement level"))
+			ok = false
+		}
+		envStructFirst = popAt < loopAt
+	} else {
+		fail("EnvMap", fmt.Errorf("method not found"))
+		ok = false
+	}
+	// 5. PopulateStructFields: a second field loop assigning m[f.Name]
+	envGoNames := false
+	if fd := irefl.fn("PopulateStructFields"); fd != nil {
+		loops := 0
+		for _, s := range fd.Body.List {
+			rs, isRange := s.(*ast.RangeStmt)
+			if !isRange {
+				continue
+			}
+			loops++
+			if loops == 2 {
+				assigns := false
+				ast.Inspect(rs.Body, func(n ast.Node) bool {
+					if as, isAs := n.(*ast.AssignStmt); isAs && len(as.Lhs) == 1 && exprString(as.Lhs[0]) == "m[f.Name]" {
+						assigns = true
+					}
+					return true
+				})
+				if !assigns {
+					fail("PopulateStructFields", fmt.Errorf("second field loop does not assign m[f.Name]"))
+					ok = false
+				}
+				envGoNames = assigns
+			}
+		}
+		if loops == 0 || loops > 2 {
+			fail("PopulateStructFields", fmt.Errorf("%d field loops, expected 1 or 2", loops))
+			ok = false
+		}
+	} else {
+		fail("PopulateStructFields", fmt.Errorf("function not found"))
+		ok = false
+	}
+	if !ok {
+		return
+	}
+	rep.Facts["reflect.envGoNames"] = b2l(envGoNames)
+	rep.Facts["reflect.checksExported"] = b2l(checksExported)
+	rep.Facts["reflect.checksKeyKind"] = b2l(checksKeyKind)
+	rep.Facts["reflect.strMapMissingAbsent"] = b2l(strMapMissingAbsent)
+	rep.Facts["reflect.envStructFirst"] = b2l(envStructFirst)
+	sb.WriteString("/-- read from resolveStruct / resolveMap (internal/reflect), Stack.resolveStep and Stack.EnvMap -/\n")
+	sb.WriteString(fmt.Sprintf("def reflectCfg : ReflectCfg := { checksExported := %s, checksKeyKind := %s, strMapMissingAbsent := %s, envStructFirst := %s, envGoNames := %s }\n\n",
+		b2l(checksExported), b2l(checksKeyKind), b2l(strMapMissingAbsent), b2l(envStructFirst), b2l(envGoNames)))
+}
+
+func isReturnOf(s ast.Stmt, what string) bool {
+	r, ok := s.(*ast.ReturnStmt)
+	return ok && len(r.Results) == 1 && exprString(r.Results[0]) == what
+}
+
+// if v, ok := c[p]; ok { return v }
+func isCommaOkReturn(s ast.Stmt) bool {
+	ifs, ok := s.(*ast.IfStmt)
+	if !ok || ifs.Init == nil || ifs.Else != nil || len(ifs.Body.List) != 1 {
+		return false
+	}
+	as, ok := ifs.Init.(*ast.AssignStmt)
+	if !ok || len(as.Lhs) != 2 || len(as.Rhs) != 1 || exprString(as.Rhs[0]) != "c[p]" {
+		return false
+	}
+	return exprString(ifs.Cond) == exprString(as.Lhs[1]) && isReturnOf(ifs.Body.List[0], exprString(as.Lhs[0]))
+}
